@@ -40,6 +40,13 @@ def search(ck, tier, seed):
                                 for w in (torch.nextafter(v, inf), torch.nextafter(v, -inf)):
                                     if lo <= float(w) <= hi:
                                         pts.add(float(w))
+                            # ... and points a little below / above every knot (1e-7 .. 2e-6 of the interval): a bin lookup with a
+                            # tolerance files them under the neighbouring bin, whose line has another slope
+                            for v in ky.tolist():
+                                for off in (2e-7, 5e-7, 9e-7, 1.5e-6, 2e-6):
+                                    for w in (v - off * (hi - lo), v + off * (hi - lo)):
+                                        if lo <= w <= hi:
+                                            pts.add(w)
                             srt = sorted(pts)
                             for a, b in zip(srt[:-1], srt[1:]):
                                 pts.add((a + b) / 2)
